@@ -147,6 +147,11 @@ def _realise(inputs, params):
             continue
         flag = ms[64] if flags else 0
         msg = _ref_message_c(fields, flag)
+        if not any(ms) and not any(V[i]):
+            # an all-zero item (a "null placeholder") stays what it is: code may test for it, and it verifies under no key
+            made[ms] = ms
+            sigs.append(ms)
+            continue
         signer = next((sks[j] for j in range(n) if V[i][j]), outsider)
         s = signer.sign(msg).signature + (bytes([flag]) if flags else b'')
         made[ms] = s
